@@ -3,7 +3,7 @@ import ast
 import re
 
 from .absint import Domain, Interp, NORMAL, RETURN, RAISE, is_raise
-from .astutil import method_call, unparse, parent, in_subtree, is_self_call, keytext
+from .astutil import method_call, unparse, parent, in_subtree, is_self_call, keytext, oriented
 from .index import dotted, walk_local
 from .loader import AnalysisError
 from .httpx import HT, HS, HC
@@ -70,20 +70,29 @@ class ConsumeDomain(Domain):
                         return None
             return state
         if isinstance(t, ast.Compare) and len(t.ops) == 1:
-            l, r, op = t.left, t.comparators[0], type(t.ops[0]).__name__
-            # len(buf) OP K
-            if isinstance(l, ast.Call) and dotted(l.func) == "len" and l.args and dotted(l.args[0]):
+            # len(buf) OP K   (either operand order)
+            o = oriented(t, lambda e: isinstance(e, ast.Call) and dotted(e.func) == "len" and e.args and dotted(e.args[0]) is not None)
+            l, op, r = o if o else (t.left, type(t.ops[0]).__name__, t.comparators[0])
+            if o:
                 buf, k = dotted(l.args[0]), unparse(r)
                 ge = (op == "GtE" and val) or (op == "Lt" and not val)
                 if ge:
                     return state | {("len>=", buf, k)}
                 if op == "Gt" and val and k == "0":
                     return state | {("nonempty", buf)}
-            # I >= 0 / I < 0 / I != -1
-            if isinstance(l, ast.Name) and isinstance(r, ast.Constant):
-                if (op == "GtE" and r.value == 0 and val) or (op == "Lt" and r.value == 0 and not val) \
-                        or (op == "NotEq" and r.value == -1 and val) or (op == "Eq" and r.value == -1 and not val) \
-                        or (op == "Gt" and r.value == -1 and val):
+            # I >= 0 / I < 0 / I != -1   (either operand order)
+            def numconst(e):
+                if isinstance(e, ast.Constant) and isinstance(e.value, (int, float)):
+                    return e.value
+                if isinstance(e, ast.UnaryOp) and isinstance(e.op, ast.USub) and isinstance(e.operand, ast.Constant):
+                    return -e.operand.value
+                return None
+            o = oriented(t, lambda e: isinstance(e, ast.Name))
+            if o and numconst(o[2]) is not None:
+                l, op, c = o[0], o[1], numconst(o[2])
+                if (op == "GtE" and c == 0 and val) or (op == "Lt" and c == 0 and not val) \
+                        or (op == "NotEq" and c == -1 and val) or (op == "Eq" and c == -1 and not val) \
+                        or (op == "Gt" and c == -1 and val):
                     return state | {("found", l.id)}
             return state
         d = dotted(t)
@@ -143,7 +152,12 @@ def selector_facts(run, f):
                   "positions are never compared): with several admitted terminators the line boundary depends on whether a later "
                   "terminator has already arrived, i.e. on fragmentation"))
     # tie: the first listed terminator must win ties (CRLF before its prefix CR): strict comparison
-    strict = any(isinstance(n, ast.Compare) and isinstance(n.ops[0], ast.Lt) and dotted(n.left) in finds for n in ast.walk(loop))
+    # `idx < index` (new candidate strictly earlier than the chosen one), whichever operand is written first
+    strict = False
+    for n in ast.walk(loop):
+        o = oriented(n, lambda e: dotted(e) in finds) if isinstance(n, ast.Compare) else None
+        if o and o[1] == "Lt" and dotted(o[2]) in chosen:
+            strict = True
     if positional:
         facts.append(("selector:first-listed-wins-ties", strict, run.site(f, loop),
                       "" if strict else "position comparison is not strict: at equal positions a later listed terminator (CR) replaces CRLF"))
@@ -454,8 +468,8 @@ def chunk_codec_facts(run):
     # last chunk goes through parseLeader for trailers
     ok = False
     for n in walk_local(parse.node):
-        if isinstance(n, ast.If) and isinstance(n.test, ast.Compare) and dotted(n.test.left) in sizevars and getattr(n.test.comparators[0], "value", 1) == 0 \
-                and isinstance(n.test.ops[0], ast.Eq):
+        o = oriented(n.test, lambda e: dotted(e) in sizevars) if isinstance(n, ast.If) else None
+        if o and o[1] == "Eq" and getattr(o[2], "value", 1) == 0:
             ok = any(isinstance(c, ast.Call) and (dotted(c.func) or "").endswith("parseLeader") for st in n.body for c in ast.walk(st))
     facts.append(("chunk:last-chunk-trailers", ok, run.site(parse), "" if ok else "the zero-size chunk does not parse trailers with parseLeader"))
     return facts
@@ -550,11 +564,12 @@ def limit_facts(run, f, buffers):
                and isinstance(n.value, ast.UnaryOp) and isinstance(n.value.op, ast.USub) and getattr(n.value.operand, "value", None) == 1}
 
     def notfound_test(t):
-        if isinstance(t, ast.Compare) and len(t.ops) == 1 and dotted(t.left) in posvars:
-            c = t.comparators[0]
-            if isinstance(t.ops[0], ast.Lt) and getattr(c, "value", None) == 0:
+        o = oriented(t, lambda e: dotted(e) in posvars)
+        if o:
+            c = o[2]
+            if o[1] == "Lt" and getattr(c, "value", None) == 0:
                 return True
-            if isinstance(t.ops[0], ast.Eq) and isinstance(c, ast.UnaryOp) and getattr(c.operand, "value", None) == 1:
+            if o[1] == "Eq" and isinstance(c, ast.UnaryOp) and getattr(c.operand, "value", None) == 1:
                 return True
         return False
 
